@@ -74,4 +74,71 @@ def streams(tier, seed):
 
 P = StreamProperty("C08", [PermOracle, ConsistencyOracle], streams, RULE, ("C08",),
                    lambda ops: len(ops[0]["dims"]) >= 2 and ops[-1]["kw"].get("dim") not in (None, ops[0]["dims"][0]))
-run, replay = P.run, P.replay
+replay = P.replay
+
+
+def registry_equivariance(tier, seed):
+    """every public processing / fitting function of the registry on the real code: the same 3-D object stored in every
+    axis order must give the same result READ BY LABELS (pairwise distinct extents, so a transposed result has another shape,
+    and a second object with two equal extents, where only the values can tell)"""
+    import warnings, io, contextlib, itertools, copy
+    import numpy as np
+    from common import dnp
+    from oracles import label_dict, dict_close
+    from props.C03 import _registry
+    rng = random.Random(seed * 7919 + 108)
+    lin = lambda x, a, b: a * x + b
+    extra = [("fit-popt", lambda d, dim: dnp.fit(lin, d.real, dim, (1.0, 0.0))["popt"], None),
+             ("fit-curve", lambda d, dim: dnp.fit(lin, d.real, dim, (1.0, 0.0))["fit"], None),
+             ("signal_to_noise-2-regions", lambda d, dim: dnp.signal_to_noise(d, [(0.0, 0.8), (1.0, 2.0)], [(0.0, 0.5)], dim=dim), None)]
+    skip = {"plot", "plot-bad", "fancy_plot", "fancy_plot-bad", "update_axis", "create_complex-arrays", "create_complex-kept",
+            "copy", "real", "pow", "np.abs", "unknown-dim", "unknown-dim-s2n"}
+    fails, n_eval = [], 0
+    for shape in ([3, 8, 2], [3, 8, 3]):
+        names = ["Average", "t2", "x2"]
+        base_vals = (np.arange(1, int(np.prod(shape)) + 1, dtype=float).reshape(shape) ** 1.3)
+        base_vals = base_vals + 0.7 * np.sin(base_vals) + (0.25j * np.cos(base_vals))
+        coords = {"Average": np.arange(shape[0], dtype=float), "t2": np.linspace(0.0, 2.0, shape[1]), "x2": np.arange(shape[2], dtype=float) * 2 + 1}
+        for name, fn, _ in list(_registry(rng)) + extra:
+            if name in skip or name.endswith("-bad") or name.startswith("dBm2w") or name.startswith("w2dBm") or name.startswith("convert_power"):
+                continue
+            dimname = "f2" if name.startswith("inverse") else "t2"
+            results = []
+            for perm in itertools.permutations(range(3)):
+                dims = [("f2" if names[k] == "t2" and dimname == "f2" else names[k]) for k in perm]
+                vals = np.transpose(base_vals, perm).copy()
+                d = dnp.DNPData(vals, dims, [coords[names[k]].copy() for k in perm])
+                try:
+                    with warnings.catch_warnings():
+                        warnings.simplefilter("ignore")
+                        with contextlib.redirect_stdout(io.StringIO()):
+                            r = fn(d, dimname)
+                except Exception as e:  # noqa: BLE001
+                    results.append(("raise", type(e).__name__)); continue
+                if not isinstance(r, dnp.DNPData):
+                    results.append(("other", None)); continue
+                results.append(("ok", label_dict(r)))
+            n_eval += 1
+            kinds = {k for k, _ in results}
+            if kinds == {"ok"}:
+                ref = results[0][1]
+                if ref is None or not all(dict_close(ref, x[1]) for x in results[1:]):
+                    key = "C08:result-depends-on-axis-order:" + name
+                    fails.append({"key": key, "clause": key, "ops": [{"function": name, "shape": shape}]})
+            elif "ok" in kinds and "raise" in kinds:
+                key = "C08:raises-for-some-axis-orders:" + name
+                fails.append({"key": key, "clause": key, "ops": [{"function": name, "shape": shape,
+                                                                 "outcomes": [k if k != "raise" else "raise:" + str(v) for k, v in results]}]})
+    return fails, n_eval
+
+
+def run(tier, seed, escalate=False):
+    res = P.run(tier, seed, escalate)
+    fails, n_eval = registry_equivariance("thorough" if escalate else tier, seed)
+    seen = {f["key"] for f in res["impl_failures"]}
+    for f in fails:
+        if f["key"] not in seen:
+            seen.add(f["key"]); res["impl_failures"].append(f)
+    res["evaluations"] += n_eval
+    res["distribution"]["registry_equivariance_cases"] = n_eval
+    return res
